@@ -95,7 +95,7 @@ func enumTrees(depth, width, nvars int) []*gtree {
 }
 
 func c03(c *Ctx) {
-	c.Rule = "exhaustive: all group trees of depth<=2, width<=2 (thorough: width<=3) over 2 (thorough: 3) boolean variables x keyword in {AND,OR,omitted} x all truth assignments x 4 placements (top level, nested, filter body, function argument), and once more at top level and as a filter body with every leaf spelled as an operand that is boolean by its data (First / Last / Index of an array of booleans, Equal(true), Not().Not()) against a truth-table oracle; random: trees of depth<=5 with comparison leaves over random data. Non-trivial = the tree has at least one operand; distinct by (query, data)."
+	c.Rule = "exhaustive: all group trees of depth<=2, width<=2 (thorough: width<=3) over 2 (thorough: 3) boolean variables x keyword in {AND,OR,omitted} x all truth assignments x 4 placements (top level, nested, filter body, function argument), and once more at top level and as a filter body with every leaf spelled as an operand that is boolean by its data (First / Last / Index of an array of booleans, Equal(true), Not().Not()) against a truth-table oracle, and as a filter body over a null element with null tests as leaves; random: trees of depth<=5 with comparison leaves over random data. Non-trivial = the tree has at least one operand; distinct by (query, data)."
 	c.Exhaust = true
 	nvars, width := 2, 2
 	if c.Thorough() {
@@ -174,6 +174,22 @@ func c03(c *Ctx) {
 						return ""
 					}
 				}
+				// the same tree as the body of a filter over an array whose one element is NULL, every leaf a test
+				// that is true (or false) of null without an error
+				nullLeaf := func(i int) string {
+					if asg&(1<<i) != 0 {
+						return []string{"@.IsNull()", "@.zz?.IsNull()", "@.IsNullOrEmpty()"}[c.Rng.Intn(3)]
+					}
+					return []string{"@.IsNotNull()", "@.zz?.IsNotNull()"}[c.Rng.Intn(2)]
+				}
+				body3 := t.text(nullLeaf)
+				body3 = "[" + body3[1:len(body3)-1] + "]"
+				check(c.AddEval("$.arr"+body3+".Count()", h.Obj("arr", h.SliceAny(h.Nil())), "filter-body-over-null-element", false, true), func(b bool) string {
+					if b {
+						return "n:1e0"
+					}
+					return "n:0e0"
+				})
 				check(c.AddEval(t.text(spell("$")), h.Obj(kv2...), "data-boolean-operands:top", false, true), func(b bool) string { return fmt.Sprint(b) })
 				body2 := t.text(spell("@"))
 				body2 = "[" + body2[1:len(body2)-1] + "]"
